@@ -161,10 +161,10 @@ def replay(ctx, prop, path):
         sc = j.get("scenario", j)
         tree = vlib.Tree()
         sandbox.ensure_shim()
-        if isinstance(sc, dict) and sc.get("kind") == "tcp":
+        if isinstance(sc, dict) and sc.get("kind") in ("tcp", "tcp2"):
             from props import c09
             tree.make("qmail-remote", "qmail-rspawn")
-            rr = c09.RemoteRunner(tree, "replay")
+            rr = (c09.RemoteRunner if sc["kind"] == "tcp" else c09.MultiRunner)(tree, "replay")
             out = [rr.run_scenario(sc, vlib.Stats()) for _ in range(3)]
             return [out[0]] if all(out) else []
         tree.make("qmail-smtpd")
@@ -311,6 +311,8 @@ def e2e_c06(ctx, tree):
         for body in (hostile, b".\n..\nx\n", b"a\n"):
             fixed.append({"kind": "tcp", "n": 1, "sender": {"b": "sender@src.example"}, "body": vlib.jsonable(body), "phases": ok[:4] + [rep(code)] + ok[5:]})
     fixed.append({"kind": "tcp", "n": 1, "sender": {"b": "sender@src.example"}, "body": vlib.jsonable(hostile), "phases": ok[:4] + [{"k": "close", "rst": False, "sent": 0}]})
+    # destinations with several addresses: once a server has accepted the connection, no other address may ever see (parts of) the dialogue
+    fixed += c09.multi_fixed()
     nsh = vlib.NCPU
     jobs = [(tree, "c06-%d" % i, vlib.subseed(ctx.seed, "c06e2e", i), ctx.n(25, 400), 0, fixed[i::nsh]) for i in range(nsh)]
     st_ = vlib.run_workers(c09.e2e_worker, jobs)
